@@ -78,12 +78,35 @@ def base(ctx, fname, x, params):
     return getattr(F, fname)(x)
 
 
-def h_chain(ctx, fname, nmax, params=None, array=False, inplace=False):
+def h_chain(ctx, fname, nmax, params=None, array=False, inplace=False, order='asc'):
+    """order: the sequence in which the derivative orders are requested ('asc'; 'desc'; 'mixed' =
+    nmax, 0, nmax-1, 1, ... followed by a second ascending pass that must reproduce every value):
+    the value of order n must not depend on which orders were requested before"""
     algopy = symx.load_algopy()
     params = params or {}
     x = _x(ctx, DOMAINS[fname])
-    vals = []
-    for n in range(nmax + 1):
+    if order != 'asc':
+        seq = list(range(nmax, -1, -1))
+        if order == 'mixed':
+            seq = []
+            lo, hi = 0, nmax
+            while lo <= hi:
+                seq.append(hi)
+                if lo != hi:
+                    seq.append(lo)
+                lo, hi = lo + 1, hi - 1
+        got = {}
+        for n in seq:
+            got[n] = call(algopy, fname, x, n, params)
+        again = [call(algopy, fname, x, n, params) for n in range(nmax + 1)]
+        for n in range(nmax + 1):
+            ctx.eq(again[n], got[n], 'order %d requested again after other orders' % n)
+        vals = [got[n] for n in range(nmax + 1)]
+    else:
+        vals = None
+    for n in (range(nmax + 1) if vals is None else ()):
+        if n == 0:
+            vals = []
         if inplace:
             from .. import npx
             buf = npx.sarr(np.array([x], dtype=object)) if ctx.mode == 'sym' else np.array([x])
@@ -161,6 +184,14 @@ def units(tier, seed):
         if fname in ('polygamma', 'hyperu'):
             continue
         add('%s/out=x aliased/n<=3' % fname, 'h_chain', fname=fname, nmax=3, inplace=True)
+    for fname in DOMAINS:
+        if fname in ('polygamma', 'hyperu'):
+            continue
+        add('%s/orders requested descending/n<=4' % fname, 'h_chain', fname=fname, nmax=4, order='desc')
+        add('%s/orders requested in mixed sequence/n<=%d' % (fname, 4 if tier == 'quick' else 6), 'h_chain', fname=fname,
+            nmax=4 if tier == 'quick' else 6, order='mixed')
+    add('polygamma(m=1)/orders requested in mixed sequence/n<=4', 'h_chain', fname='polygamma', nmax=4, params={'m': 1}, order='mixed')
+    add('hyperu(3/2,1/2)/orders requested in mixed sequence/n<=4', 'h_chain', fname='hyperu', nmax=4, params={'a': '3/2', 'b': '1/2'}, order='mixed')
     for m in ((0, 1, 2) if tier == 'quick' else (0, 1, 2, 3, 5)):
         add('polygamma(m=%d)/n<=%d' % (m, nmax), 'h_chain', fname='polygamma', nmax=nmax, params={'m': m})
     for a, b in ([('3/2', '1/2'), ('1', '3'), ('-1/2', '3/2')] if tier == 'quick' else
